@@ -178,6 +178,7 @@ type Snap struct {
 	Fee       sdk.Coins
 	DelBal    []sdk.Coins
 	UnbondingTime time.Duration
+	QueryPanic    string // non-empty when the module's balance function panicked while this state was decoded
 	NSnapshots    int
 	AllianceDigest [32]byte
 }
@@ -372,7 +373,16 @@ func (w *World) Snapshot(ctx sdk.Context) *Snap {
 					info = types.NewAllianceValidatorInfo()
 				}
 				// the module's own reported balance (same function the AllianceDelegation query uses)
-				p.Reported = types.GetDelegationTokens(d, types.AllianceValidator{AllianceValidatorInfo: &info}, a).Amount
+				func() {
+					defer func() {
+						if r := recover(); r != nil {
+							// the module's own balance function panics in this state (e.g. negative coin amount)
+							s.QueryPanic = fmt.Sprintf("GetDelegationTokens(%s/%s/%s): %v", d.DelegatorAddress, d.ValidatorAddress, d.Denom, r)
+							p.Reported = math.ZeroInt()
+						}
+					}()
+					p.Reported = types.GetDelegationTokens(d, types.AllianceValidator{AllianceValidatorInfo: &info}, a).Amount
+				}()
 			}
 		}
 		if p.Reported.IsNil() {
